@@ -556,6 +556,64 @@ def rule_membership(model):
                               f'({keys[0]}=0, {keys[0]}="") is treated '
                               'as if the option was not given', node=n,
                               ctx=ren)
+    # an option value handed to a helper whose parameter is then tested
+    # for truth (`etc or '...'`): same confusion, one call further
+    def option_key(a):
+        if isinstance(a, ast.Call) and isinstance(a.func, ast.Attribute) \
+                and a.func.attr == 'get' and norm(a.func.value) in names \
+                and a.args and isinstance(a.args[0], ast.Constant):
+            return a.args[0].value
+        if isinstance(a, ast.Subscript) and norm(a.value) in names and \
+                isinstance(a.slice, ast.Constant):
+            return a.slice.value
+        if isinstance(a, ast.Name) and a.id in opt:
+            return sorted(opt[a.id])[0]
+        return None
+    for n in own_nodes(ren.node):
+        if not isinstance(n, ast.Call):
+            continue
+        for t in model.resolve_callee(n.func, ren):
+            if t[0] != 'func':
+                continue
+            callee = t[1]
+            ps = callee.params()
+            off = 1 if callee.cls is not None and ps[:1] == ['self'] else 0
+            bound = {}
+            for i, a in enumerate(n.args):
+                k = option_key(a)
+                if k is not None and i + off < len(ps):
+                    bound[ps[i + off]] = k
+            for kw in n.keywords:
+                k = option_key(kw.value)
+                if k is not None and kw.arg in ps:
+                    bound[kw.arg] = k
+            for pname, key in bound.items():
+                for x in own_nodes(callee.node):
+                    hit = None
+                    if isinstance(x, ast.BoolOp) and any(
+                            isinstance(v, ast.Name) and v.id == pname
+                            for v in x.values[:-1]):
+                        hit = x
+                    elif isinstance(x, (ast.If, ast.IfExp, ast.While)):
+                        leaves = [x.test]
+                        while leaves:
+                            y = leaves.pop()
+                            if isinstance(y, ast.BoolOp):
+                                leaves += y.values
+                            elif isinstance(y, ast.UnaryOp) and isinstance(
+                                    y.op, ast.Not):
+                                leaves.append(y.operand)
+                            elif isinstance(y, ast.Name) and y.id == pname:
+                                hit = x.test
+                    if hit is not None:
+                        r.instance(callee.where, hit, 'TRUTHINESS')
+                        r.finding(callee.where, f'{norm(hit)}  ({key}=)',
+                                  f'the value of the {key}= option, handed '
+                                  f'to {callee.name}() as `{pname}`, is '
+                                  'consulted by its truth: an explicitly '
+                                  f'empty value ({key}="") is treated as if '
+                                  'the option was not given', node=hit,
+                                  ctx=callee)
     r.require_floor(5)
     return r
 
